@@ -365,7 +365,11 @@ class Interp:
         if isinstance(t, ast.Name):
             env[t.id] = v
         elif isinstance(t, (ast.Tuple, ast.List)):
-            items = self.iterate_concrete(v)
+            if is_z3(v) and v.sort().kind() == z3.Z3_DATATYPE_SORT and v.sort().num_constructors() == 1:
+                ctor = v.sort()
+                items = [ctor.accessor(0, k)(v) for k in range(ctor.constructor(0).arity())]
+            else:
+                items = self.iterate_concrete(v)
             if any(isinstance(e, ast.Starred) for e in t.elts):
                 raise Unsupported("starred assignment")
             if len(items) != len(t.elts):
@@ -1116,6 +1120,8 @@ class Interp:
             return obj.args
         if isinstance(obj, PType) and attr == '__name__':
             return obj.name
+        if is_z3(obj) and '__getattr_symbolic__' in self.globals:
+            return self.globals['__getattr_symbolic__'](self, obj, attr)
         raise Unsupported("attribute %s of %r" % (attr, obj))
 
     def setattr(self, obj, attr, v):
@@ -1123,6 +1129,13 @@ class Interp:
             setter = obj.methods.get(attr + '.setter')
             if setter is not None:
                 return self.call(setter, [obj, v], {})
+            kind = getattr(obj, 'field_kinds', {}).get(attr)
+            if kind is not None and kind[0] == 'seq' and isinstance(v, PList):
+                # a list freshly built by the expression on the right-hand side (no other alias is modelled)
+                e = z3.Empty(z3.SeqSort(kind[1]))
+                for x in v.items:
+                    e = z3.Concat(e, z3.Unit(x))
+                v = SeqBox(e)
             obj.fields[attr] = v
             return
         raise Unsupported("attribute store on %r" % (obj,))
@@ -1292,6 +1305,8 @@ class Interp:
             from .builtins import BUILTINS
             if fv.name in BUILTINS:
                 return self.call(BUILTINS[fv.name], args, kwargs)
+        if is_z3(fv) and '__call_symbolic__' in self.globals:
+            return self.globals['__call_symbolic__'](self, fv, args, kwargs)
         if callable(fv) and not is_z3(fv):
             return fv(self, *args, **kwargs)
         raise Unsupported("call of %r" % (fv,))
